@@ -91,3 +91,152 @@ pub fn record_component_view(component: &RecordComponent) -> RecordComponentView
 		attributes: &component.attributes,
 	}
 }
+
+// ---------------------------------------------------------------------------------------------
+// Field and record-component visitors with a caller-chosen interest mask.
+//
+// `FieldVisitor`, `RecordComponentVisitor` and their `*Interests` structs live in crate-private
+// modules, so a visitor answering anything but the built-in `interests()` cannot be written outside
+// this crate. The wrappers below forward every call unchanged to the wrapped visitor and only answer
+// `interests()` themselves.
+
+use anyhow::Result;
+use crate::tree::field::ConstantValue;
+use crate::visitor::field::{FieldInterests, FieldVisitor};
+use crate::visitor::record::{RecordComponentInterests, RecordComponentVisitor};
+
+pub struct MaskedField<V> {
+	inner: V,
+	interests: FieldInterests,
+}
+
+impl<V> MaskedField<V> {
+	/// `interests` in the declaration order of `FieldInterests`: constant_value, signature,
+	/// runtime_visible_annotations, runtime_invisible_annotations, runtime_visible_type_annotations,
+	/// runtime_invisible_type_annotations, unknown_attributes
+	pub fn new(inner: V, interests: [bool; 7]) -> MaskedField<V> {
+		let [constant_value, signature, runtime_visible_annotations, runtime_invisible_annotations,
+			runtime_visible_type_annotations, runtime_invisible_type_annotations, unknown_attributes] = interests;
+		MaskedField {
+			inner,
+			interests: FieldInterests {
+				constant_value, signature, runtime_visible_annotations, runtime_invisible_annotations,
+				runtime_visible_type_annotations, runtime_invisible_type_annotations, unknown_attributes,
+			},
+		}
+	}
+
+	pub fn into_inner(self) -> V {
+		self.inner
+	}
+}
+
+impl<V: FieldVisitor> FieldVisitor for MaskedField<V> {
+	type AnnotationsVisitor = V::AnnotationsVisitor;
+	type AnnotationsResidual = (V::AnnotationsResidual, FieldInterests);
+	type TypeAnnotationsVisitor = V::TypeAnnotationsVisitor;
+	type TypeAnnotationsResidual = (V::TypeAnnotationsResidual, FieldInterests);
+	type UnknownAttribute = V::UnknownAttribute;
+
+	fn interests(&self) -> FieldInterests {
+		self.interests
+	}
+
+	fn visit_deprecated_and_synthetic_attribute(&mut self, deprecated: bool, synthetic: bool) -> Result<()> {
+		self.inner.visit_deprecated_and_synthetic_attribute(deprecated, synthetic)
+	}
+
+	fn visit_constant_value(&mut self, constant_value: ConstantValue) -> Result<()> {
+		self.inner.visit_constant_value(constant_value)
+	}
+
+	fn visit_signature(&mut self, signature: FieldSignature) -> Result<()> {
+		self.inner.visit_signature(signature)
+	}
+
+	fn visit_annotations(self, visible: bool) -> Result<(Self::AnnotationsResidual, Self::AnnotationsVisitor)> {
+		let (residual, visitor) = self.inner.visit_annotations(visible)?;
+		Ok(((residual, self.interests), visitor))
+	}
+
+	fn finish_annotations((residual, interests): Self::AnnotationsResidual, annotations_visitor: Self::AnnotationsVisitor) -> Result<Self> {
+		Ok(MaskedField { inner: V::finish_annotations(residual, annotations_visitor)?, interests })
+	}
+
+	fn visit_type_annotations(self, visible: bool) -> Result<(Self::TypeAnnotationsResidual, Self::TypeAnnotationsVisitor)> {
+		let (residual, visitor) = self.inner.visit_type_annotations(visible)?;
+		Ok(((residual, self.interests), visitor))
+	}
+
+	fn finish_type_annotations((residual, interests): Self::TypeAnnotationsResidual, type_annotations_visitor: Self::TypeAnnotationsVisitor) -> Result<Self> {
+		Ok(MaskedField { inner: V::finish_type_annotations(residual, type_annotations_visitor)?, interests })
+	}
+
+	fn visit_unknown_attribute(&mut self, unknown_attribute: Self::UnknownAttribute) -> Result<()> {
+		self.inner.visit_unknown_attribute(unknown_attribute)
+	}
+}
+
+pub struct MaskedRecordComponent<V> {
+	inner: V,
+	interests: RecordComponentInterests,
+}
+
+impl<V> MaskedRecordComponent<V> {
+	/// `interests` in the declaration order of `RecordComponentInterests`: signature,
+	/// runtime_visible_annotations, runtime_invisible_annotations, runtime_visible_type_annotations,
+	/// runtime_invisible_type_annotations, unknown_attributes
+	pub fn new(inner: V, interests: [bool; 6]) -> MaskedRecordComponent<V> {
+		let [signature, runtime_visible_annotations, runtime_invisible_annotations,
+			runtime_visible_type_annotations, runtime_invisible_type_annotations, unknown_attributes] = interests;
+		MaskedRecordComponent {
+			inner,
+			interests: RecordComponentInterests {
+				signature, runtime_visible_annotations, runtime_invisible_annotations,
+				runtime_visible_type_annotations, runtime_invisible_type_annotations, unknown_attributes,
+			},
+		}
+	}
+
+	pub fn into_inner(self) -> V {
+		self.inner
+	}
+}
+
+impl<V: RecordComponentVisitor> RecordComponentVisitor for MaskedRecordComponent<V> {
+	type AnnotationsVisitor = V::AnnotationsVisitor;
+	type AnnotationsResidual = (V::AnnotationsResidual, RecordComponentInterests);
+	type TypeAnnotationsVisitor = V::TypeAnnotationsVisitor;
+	type TypeAnnotationsResidual = (V::TypeAnnotationsResidual, RecordComponentInterests);
+	type UnknownAttribute = V::UnknownAttribute;
+
+	fn interests(&self) -> RecordComponentInterests {
+		self.interests
+	}
+
+	fn visit_signature(&mut self, signature: FieldSignature) -> Result<()> {
+		self.inner.visit_signature(signature)
+	}
+
+	fn visit_annotations(self, visible: bool) -> Result<(Self::AnnotationsResidual, Self::AnnotationsVisitor)> {
+		let (residual, visitor) = self.inner.visit_annotations(visible)?;
+		Ok(((residual, self.interests), visitor))
+	}
+
+	fn finish_annotations((residual, interests): Self::AnnotationsResidual, annotations_visitor: Self::AnnotationsVisitor) -> Result<Self> {
+		Ok(MaskedRecordComponent { inner: V::finish_annotations(residual, annotations_visitor)?, interests })
+	}
+
+	fn visit_type_annotations(self, visible: bool) -> Result<(Self::TypeAnnotationsResidual, Self::TypeAnnotationsVisitor)> {
+		let (residual, visitor) = self.inner.visit_type_annotations(visible)?;
+		Ok(((residual, self.interests), visitor))
+	}
+
+	fn finish_type_annotations((residual, interests): Self::TypeAnnotationsResidual, type_annotations_visitor: Self::TypeAnnotationsVisitor) -> Result<Self> {
+		Ok(MaskedRecordComponent { inner: V::finish_type_annotations(residual, type_annotations_visitor)?, interests })
+	}
+
+	fn visit_unknown_attribute(&mut self, unknown_attribute: Self::UnknownAttribute) -> Result<()> {
+		self.inner.visit_unknown_attribute(unknown_attribute)
+	}
+}
